@@ -24,26 +24,29 @@ Lemma dscale_0 f m : dscale f m tor0 =t= tor0.
 Proof. unfold tor_eq, dscale, tor0, t_fx, t_fy, t_mz. cbn. repeat split; ring. Qed.
 
 (* related loads: same kind, same place, value times the factor of its kind *)
-Definition cl_rel (f m : Q) (l l' : cload Q) : Prop :=
-  cl_term l' = cl_term l /\ cl_local l' = cl_local l /\ cl_t l' = cl_t l /\ cl_v l' == kof f m (cl_term l) * cl_v l.
-Definition dl_rel (f m : Q) (l l' : dload Q) : Prop :=
+(* sf ("same frame"): the two bars point in the same direction; when they do not (a turned bar) only loads given
+   in the bar's own axes are related *)
+Definition cl_rel (sf : Prop) (f m : Q) (l l' : cload Q) : Prop :=
+  cl_term l' = cl_term l /\ cl_local l' = cl_local l /\ cl_t l' = cl_t l /\ cl_v l' == kof f m (cl_term l) * cl_v l /\
+  (sf \/ cl_local l = true).
+Definition dl_rel (sf : Prop) (f m : Q) (l l' : dload Q) : Prop :=
   dl_term l' = dl_term l /\ dl_local l' = dl_local l /\ dl_t0 l' = dl_t0 l /\ dl_t1 l' = dl_t1 l /\
-  dl_v0 l' == kof f m (dl_term l) * dl_v0 l /\ dl_v1 l' == kof f m (dl_term l) * dl_v1 l.
+  dl_v0 l' == kof f m (dl_term l) * dl_v0 l /\ dl_v1 l' == kof f m (dl_term l) * dl_v1 l /\ (sf \/ dl_local l = true).
 
 (* ---- same slicing ---- *)
-Lemma cpos_rel f m cl cl' : Forall2 (cl_rel f m) cl cl' -> cpos cl' = cpos cl.
+Lemma cpos_rel sf f m cl cl' : Forall2 (cl_rel sf f m) cl cl' -> cpos cl' = cpos cl.
 Proof.
   unfold cpos. induction 1 as [|l l' cl cl' (_ & _ & Ht & _) _ IH]; [reflexivity|].
   cbn [filter]. rewrite Ht. destruct (negb (is_extreme (cl_t l))); cbn [map]; rewrite IH, ?Ht; reflexivity.
 Qed.
-Lemma dpos_rel f m dl dl' : Forall2 (dl_rel f m) dl dl' -> dpos dl' = dpos dl.
+Lemma dpos_rel sf f m dl dl' : Forall2 (dl_rel sf f m) dl dl' -> dpos dl' = dpos dl.
 Proof.
   unfold dpos. induction 1 as [|l l' dl dl' (_ & _ & H0 & H1 & _) _ IH]; [reflexivity|].
   cbn [flat_map]. rewrite H0, H1, IH. reflexivity.
 Qed.
-Lemma positions_rel f m f' m' cl cl' dl dl' n : Forall2 (cl_rel f m) cl cl' -> Forall2 (dl_rel f' m') dl dl' ->
+Lemma positions_rel sf f m f' m' cl cl' dl dl' n : Forall2 (cl_rel sf f m) cl cl' -> Forall2 (dl_rel sf f' m') dl dl' ->
   slice_positions cl' dl' n = slice_positions cl dl n.
-Proof. intros Hc Hd. unfold slice_positions, required_positions. rewrite (cpos_rel _ _ _ _ Hc), (dpos_rel _ _ _ _ Hd). reflexivity. Qed.
+Proof. intros Hc Hd. unfold slice_positions, required_positions. rewrite (cpos_rel _ _ _ _ _ Hc), (dpos_rel _ _ _ _ _ Hd). reflexivity. Qed.
 
 (* ---- loads convert ---- *)
 Lemma term_tor_rel f m tm v v' : v' == kof f m tm * v -> term_tor tm v' =t= dscale f m (term_tor tm v).
@@ -53,36 +56,46 @@ Proof. unfold tor_eq, dscale, to_local, t_fx, t_fy, t_mz. cbn. repeat split; rin
 #[export] Instance to_local_proper' c s : Proper (tor_eq ==> tor_eq) (to_local (F:=Q) c s).
 Proof. intros x y (H1 & H2 & H3). unfold tor_eq, to_local, t_fx, t_fy, t_mz in *. cbn in *. rewrite H1, H2, H3. repeat split; reflexivity. Qed.
 
-Lemma cl_local_tor_rel f m c s l l' : cl_rel f m l l' -> cl_local_tor c s l' =t= dscale f m (cl_local_tor c s l).
+Lemma to_local_frame c s c' s' t : c' == c -> s' == s -> to_local c' s' t =t= to_local c s t.
+Proof. intros Hc Hs. unfold tor_eq, to_local, t_fx, t_fy, t_mz. cbn. rewrite Hc, Hs. repeat split; reflexivity. Qed.
+
+Lemma cl_local_tor_rel (sf : Prop) f m c s c' s' l l' : (sf -> c' == c /\ s' == s) -> cl_rel sf f m l l' ->
+  cl_local_tor c' s' l' =t= dscale f m (cl_local_tor c s l).
 Proof.
-  intros (Ht & Hl & _ & Hv). unfold cl_local_tor. rewrite Ht, Hl.
+  intros Hsf (Ht & Hl & _ & Hv & Hloc). unfold cl_local_tor. rewrite Ht, Hl.
   assert (E : term_tor (cl_term l) (cl_v l') =t= dscale f m (term_tor (cl_term l) (cl_v l))) by (apply term_tor_rel; exact Hv).
-  destruct (cl_local l); [exact E|]. rewrite E. apply to_local_dscale.
+  destruct (cl_local l); [exact E|].
+  destruct Hloc as [Hs | Hl']; [| discriminate]. destruct (Hsf Hs) as (Hc & Hs').
+  rewrite (to_local_frame c s c' s' _ Hc Hs'). rewrite E. apply to_local_dscale.
 Qed.
 
-Lemma ext_fold_rel f m c s t : forall cl cl', Forall2 (cl_rel f m) cl cl' -> forall acc acc', acc' =t= dscale f m acc ->
-  fold_left (fun ac l => if teq t (cl_t l) then tor_add ac (cl_local_tor c s l) else ac) cl' acc'
+Lemma ext_fold_rel (sf : Prop) f m c s c' s' t : (sf -> c' == c /\ s' == s) ->
+  forall cl cl', Forall2 (cl_rel sf f m) cl cl' -> forall acc acc', acc' =t= dscale f m acc ->
+  fold_left (fun ac l => if teq t (cl_t l) then tor_add ac (cl_local_tor c' s' l) else ac) cl' acc'
   =t= dscale f m (fold_left (fun ac l => if teq t (cl_t l) then tor_add ac (cl_local_tor c s l) else ac) cl acc).
 Proof.
-  induction 1 as [|l l' cl cl' Hl _ IH]; intros acc acc' H; [exact H|]. cbn [fold_left]. apply IH.
-  destruct Hl as (Ht & Hlo & Hp & Hv). rewrite Hp. destruct (teq t (cl_t l)); [| exact H].
-  etransitivity; [| symmetry; apply dscale_add]. apply tor_add_proper; [exact H | apply cl_local_tor_rel; repeat split; assumption].
+  intros Hsf. induction 1 as [|l l' cl cl' Hl _ IH]; intros acc acc' H; [exact H|]. cbn [fold_left]. apply IH.
+  pose proof Hl as (_ & _ & Hp & _). rewrite Hp. destruct (teq t (cl_t l)); [| exact H].
+  etransitivity; [| symmetry; apply dscale_add]. apply tor_add_proper; [exact H | apply (cl_local_tor_rel sf); assumption].
 Qed.
 
-Lemma dl_value_at_rel f m l l' t : dl_rel f m l l' -> dl_value_at l' t == kof f m (dl_term l) * dl_value_at l t.
+Lemma dl_value_at_rel sf f m l l' t : dl_rel sf f m l l' -> dl_value_at l' t == kof f m (dl_term l) * dl_value_at l t.
 Proof.
-  intros (_ & _ & H0 & H1 & Hv0 & Hv1). unfold dl_value_at. rewrite H0, H1.
+  intros (_ & _ & H0 & H1 & Hv0 & Hv1 & _). unfold dl_value_at. rewrite H0, H1.
   destruct ((nltb t (dl_t0 l) && negb (teq t (dl_t0 l))) || (nltb (dl_t1 l) t && negb (teq t (dl_t1 l)))).
   - cbn [n0 QOps]. ring.
   - cbn [nadd nsub nmul ndiv QOps]. rewrite Hv0, Hv1. unfold Qdiv. ring.
 Qed.
 
-Lemma dl_tor_at_rel f m c s l l' t : dl_rel f m l l' -> dl_tor_at c s l' t =t= dscale f m (dl_tor_at c s l t).
+Lemma dl_tor_at_rel (sf : Prop) f m c s c' s' l l' t : (sf -> c' == c /\ s' == s) -> dl_rel sf f m l l' ->
+  dl_tor_at c' s' l' t =t= dscale f m (dl_tor_at c s l t).
 Proof.
-  intros H. pose proof (dl_value_at_rel f m l l' t H) as Hv. destruct H as (Ht & Hl & _).
+  intros Hsf H. pose proof (dl_value_at_rel sf f m l l' t H) as Hv. destruct H as (Ht & Hl & _ & _ & _ & _ & Hloc).
   unfold dl_tor_at. rewrite Ht, Hl.
   assert (E : term_tor (dl_term l) (dl_value_at l' t) =t= dscale f m (term_tor (dl_term l) (dl_value_at l t))) by (apply term_tor_rel; exact Hv).
-  destruct (dl_local l); [exact E|]. rewrite E. apply to_local_dscale.
+  destruct (dl_local l); [exact E|].
+  destruct Hloc as [Hs | Hl']; [| discriminate]. destruct (Hsf Hs) as (Hc & Hs').
+  rewrite (to_local_frame c s c' s' _ Hc Hs'). rewrite E. apply to_local_dscale.
 Qed.
 
 (* the translated kernel: intensities (forces x f, moments x m) over a length x lam, with m = f lam:
@@ -101,63 +114,75 @@ Proof.
   - repeat split; field; split; assumption.
 Qed.
 
-Lemma point_at_rel lam (b b' : bar Q) t :
-  b_x1 b' == lam * b_x1 b -> b_y1 b' == lam * b_y1 b -> b_x2 b' == lam * b_x2 b -> b_y2 b' == lam * b_y2 b ->
-  fst (point_at b' t) == lam * fst (point_at b t) /\ snd (point_at b' t) == lam * snd (point_at b t).
+(* a similarity of the plane: x' = lam (cr x - sr y) + dx, y' = lam (sr x + cr y) + dy, with cr^2 + sr^2 = 1 *)
+Lemma point_at_rel lam cr sr dx dy (b b' : bar Q) t :
+  b_x1 b' == lam * (cr * b_x1 b - sr * b_y1 b) + dx -> b_y1 b' == lam * (sr * b_x1 b + cr * b_y1 b) + dy ->
+  b_x2 b' == lam * (cr * b_x2 b - sr * b_y2 b) + dx -> b_y2 b' == lam * (sr * b_x2 b + cr * b_y2 b) + dy ->
+  fst (point_at b' t) == lam * (cr * fst (point_at b t) - sr * snd (point_at b t)) + dx /\
+  snd (point_at b' t) == lam * (sr * fst (point_at b t) + cr * snd (point_at b t)) + dy.
 Proof.
   intros X1 Y1 X2 Y2. unfold point_at. cbn [fst snd nadd nsub nmul ndiv n0 n1 QOps]. rewrite X1, Y1, X2, Y2.
   split; field; discriminate.
 Qed.
 
-(* ---- bars written in the two unit systems ---- *)
-Record bar_rel (lam f m : Q) (b b' : bar Q) : Prop := {
+(* ---- two descriptions of one bar: other units (lam, f, m), another place (dx, dy), turned by (cr, sr) ---- *)
+Record bar_rel (lam cr sr dx dy f m : Q) (b b' : bar Q) : Prop := {
   br_l1 : b_l1 b' = b_l1 b; br_l2 : b_l2 b' = b_l2 b;
-  br_c : b_c b' = b_c b; br_s : b_s b' = b_s b;
-  br_x1 : b_x1 b' == lam * b_x1 b; br_y1 : b_y1 b' == lam * b_y1 b;
-  br_x2 : b_x2 b' == lam * b_x2 b; br_y2 : b_y2 b' == lam * b_y2 b;
-  br_cl : Forall2 (cl_rel (f * lam) (m * lam)) (b_cl b) (b_cl b');
-  br_dl : Forall2 (dl_rel f m) (b_dl b) (b_dl b');
+  br_c : b_c b' == cr * b_c b - sr * b_s b; br_s : b_s b' == sr * b_c b + cr * b_s b;
+  br_x1 : b_x1 b' == lam * (cr * b_x1 b - sr * b_y1 b) + dx; br_y1 : b_y1 b' == lam * (sr * b_x1 b + cr * b_y1 b) + dy;
+  br_x2 : b_x2 b' == lam * (cr * b_x2 b - sr * b_y2 b) + dx; br_y2 : b_y2 b' == lam * (sr * b_x2 b + cr * b_y2 b) + dy;
+  br_cl : Forall2 (cl_rel (cr == 1 /\ sr == 0) (f * lam) (m * lam)) (b_cl b) (b_cl b');
+  br_dl : Forall2 (dl_rel (cr == 1 /\ sr == 0) f m) (b_dl b) (b_dl b');
   br_w : own_weight_gen (O:=QOps) (b_rho b') (b_A b') == f * own_weight_gen (O:=QOps) (b_rho b) (b_A b) }.
 
-Lemma slice_len_rel lam f m b b' ta tb : bar_rel lam f m b b' -> Loads.slice_len b' ta tb == lam * Loads.slice_len b ta tb.
+Lemma same_frame lam cr sr dx dy f m b b' : bar_rel lam cr sr dx dy f m b b' -> cr == 1 /\ sr == 0 -> b_c b' == b_c b /\ b_s b' == b_s b.
+Proof. intros R (H1 & H0). rewrite (br_c _ _ _ _ _ _ _ _ _ R), (br_s _ _ _ _ _ _ _ _ _ R), H1, H0. split; ring. Qed.
+
+Lemma slice_len_rel lam cr sr dx dy f m b b' ta tb : cr * cr + sr * sr == 1 -> bar_rel lam cr sr dx dy f m b b' ->
+  Loads.slice_len b' ta tb == lam * Loads.slice_len b ta tb.
 Proof.
-  intros R. unfold Loads.slice_len. rewrite (br_c _ _ _ _ _ R), (br_s _ _ _ _ _ R).
-  destruct (point_at_rel lam b b' ta (br_x1 _ _ _ _ _ R) (br_y1 _ _ _ _ _ R) (br_x2 _ _ _ _ _ R) (br_y2 _ _ _ _ _ R)) as (A1 & A2).
-  destruct (point_at_rel lam b b' tb (br_x1 _ _ _ _ _ R) (br_y1 _ _ _ _ _ R) (br_x2 _ _ _ _ _ R) (br_y2 _ _ _ _ _ R)) as (B1 & B2).
-  cbv zeta. cbn [nadd nsub nmul QOps]. rewrite A1, A2, B1, B2. ring.
+  intros Hu R. unfold Loads.slice_len. rewrite (br_c _ _ _ _ _ _ _ _ _ R), (br_s _ _ _ _ _ _ _ _ _ R).
+  destruct (point_at_rel lam cr sr dx dy b b' ta (br_x1 _ _ _ _ _ _ _ _ _ R) (br_y1 _ _ _ _ _ _ _ _ _ R) (br_x2 _ _ _ _ _ _ _ _ _ R) (br_y2 _ _ _ _ _ _ _ _ _ R)) as (A1 & A2).
+  destruct (point_at_rel lam cr sr dx dy b b' tb (br_x1 _ _ _ _ _ _ _ _ _ R) (br_y1 _ _ _ _ _ _ _ _ _ R) (br_x2 _ _ _ _ _ _ _ _ _ R) (br_y2 _ _ _ _ _ _ _ _ _ R)) as (B1 & B2).
+  cbv zeta. cbn [nadd nsub nmul QOps]. rewrite A1, A2, B1, B2.
+  set (ax := fst (point_at b ta)). set (ay := snd (point_at b ta)). set (bx := fst (point_at b tb)). set (by_ := snd (point_at b tb)).
+  transitivity (lam * ((cr * cr + sr * sr) * (b_c b * (bx - ax) + b_s b * (by_ - ay)))); [ring | rewrite Hu; ring].
 Qed.
 
-Lemma in_span_rel f m l l' ta tb : dl_rel f m l l' -> in_span l' ta tb = in_span l ta tb.
+Lemma in_span_rel sf f m l l' ta tb : dl_rel sf f m l l' -> in_span l' ta tb = in_span l ta tb.
 Proof. intros (_ & _ & H0 & H1 & _). unfold in_span. rewrite H0, H1. reflexivity. Qed.
 
 Section Units.
-Variables lam f m : Q.
+Variables lam cr sr dx dy f m : Q.
 Hypothesis Hlam : ~ lam == 0.
 Hypothesis Hm : m == f * lam.
+Hypothesis Hu : cr * cr + sr * sr == 1.
 Let FF := f * lam.
 Let MM := m * lam.
+Let SF : Prop := cr == 1 /\ sr == 0.
+Notation BR := (bar_rel lam cr sr dx dy f m).
 
-Lemma dl_lump_rel b b' l l' ta tb : bar_rel lam f m b b' -> dl_rel f m l l' ->
+Lemma dl_lump_rel b b' l l' ta tb : BR b b' -> dl_rel SF f m l l' ->
   fst (dl_lump b' l' ta tb) =t= dscale FF MM (fst (dl_lump b l ta tb)) /\
   snd (dl_lump b' l' ta tb) =t= dscale FF MM (snd (dl_lump b l ta tb)).
 Proof.
-  intros R Hl. unfold dl_lump. rewrite (in_span_rel f m l l' ta tb Hl).
+  intros R Hl. unfold dl_lump. rewrite (in_span_rel SF f m l l' ta tb Hl).
   destruct (in_span l ta tb).
-  - cbv zeta. rewrite (br_c _ _ _ _ _ R), (br_s _ _ _ _ _ R).
-    destruct (dl_tor_at_rel f m (b_c b) (b_s b) l l' ta Hl) as (A1 & A2 & A3).
-    destruct (dl_tor_at_rel f m (b_c b) (b_s b) l l' tb Hl) as (B1 & B2 & B3).
+  - cbv zeta.
+    destruct (dl_tor_at_rel SF f m (b_c b) (b_s b) (b_c b') (b_s b') l l' ta (same_frame _ _ _ _ _ _ _ _ _ R) Hl) as (A1 & A2 & A3).
+    destruct (dl_tor_at_rel SF f m (b_c b) (b_s b) (b_c b') (b_s b') l l' tb (same_frame _ _ _ _ _ _ _ _ _ R) Hl) as (B1 & B2 & B3).
     unfold dscale, t_fx, t_fy, t_mz in A1, A2, A3, B1, B2, B3. cbn [fst snd] in A1, A2, A3, B1, B2, B3.
     apply (lump_gen_units lam f m); try assumption.
-    apply slice_len_rel with (f := f) (m := m). exact R.
+    apply slice_len_rel with (cr := cr) (sr := sr) (dx := dx) (dy := dy) (f := f) (m := m); assumption.
   - cbn [fst snd]. split; symmetry; apply dscale_0.
 Qed.
 
-Lemma slice_lumps_rel b b' ta tb : bar_rel lam f m b b' -> forall dl dl', Forall2 (dl_rel f m) dl dl' ->
+Lemma slice_lumps_rel b b' ta tb : BR b b' -> forall dl dl', Forall2 (dl_rel SF f m) dl dl' ->
   fst (slice_lumps b' dl' ta tb) =t= dscale FF MM (fst (slice_lumps b dl ta tb)) /\
   snd (slice_lumps b' dl' ta tb) =t= dscale FF MM (snd (slice_lumps b dl ta tb)).
 Proof.
   intros R. unfold slice_lumps.
-  assert (G : forall dl dl', Forall2 (dl_rel f m) dl dl' -> forall acc acc',
+  assert (G : forall dl dl', Forall2 (dl_rel SF f m) dl dl' -> forall acc acc',
     fst acc' =t= dscale FF MM (fst acc) -> snd acc' =t= dscale FF MM (snd acc) ->
     let r' := fold_left (fun ac l => let p := dl_lump b' l ta tb in (tor_add (fst ac) (fst p), tor_add (snd ac) (snd p))) dl' acc' in
     let r := fold_left (fun ac l => let p := dl_lump b l ta tb in (tor_add (fst ac) (fst p), tor_add (snd ac) (snd p))) dl acc in
@@ -169,9 +194,9 @@ Proof.
   intros dl dl' Hd. apply G; [exact Hd | |]; cbn [fst snd]; symmetry; apply dscale_0.
 Qed.
 
-(* slice nodes: same t, coordinates x lam, loads converted *)
+(* slice nodes: same t, coordinates mapped by the similarity, loads (in the bar's own axes) converted *)
 Definition node_rel (n n' : pnode Q) : Prop :=
-  pn_t n' = pn_t n /\ pn_x n' == lam * pn_x n /\ pn_y n' == lam * pn_y n /\
+  pn_t n' = pn_t n /\ pn_x n' == lam * (cr * pn_x n - sr * pn_y n) + dx /\ pn_y n' == lam * (sr * pn_x n + cr * pn_y n) + dy /\
   pn_ext n' =t= dscale FF MM (pn_ext n) /\ pn_left n' =t= dscale FF MM (pn_left n) /\ pn_right n' =t= dscale FF MM (pn_right n).
 
 Lemma add_left_rel n n' t t' : node_rel n n' -> t' =t= dscale FF MM t -> node_rel (add_left n t) (add_left n' t').
@@ -187,7 +212,7 @@ Proof.
   etransitivity; [| symmetry; apply dscale_add]. apply tor_add_proper; assumption.
 Qed.
 
-Lemma apply_dist_from_rel b b' dl dl' : bar_rel lam f m b b' -> Forall2 (dl_rel f m) dl dl' ->
+Lemma apply_dist_from_rel b b' dl dl' : BR b b' -> Forall2 (dl_rel SF f m) dl dl' ->
   forall rest rest' n n', node_rel n n' -> Forall2 node_rel rest rest' ->
   Forall2 node_rel (apply_dist_from b dl n rest) (apply_dist_from b' dl' n' rest').
 Proof.
@@ -201,56 +226,56 @@ Proof.
     + apply IH; [apply add_right_rel; [split; assumption | exact L2] | exact Hr'].
 Qed.
 
-Lemma mk_node_rel b b' t e e' : bar_rel lam f m b b' -> e' =t= dscale FF MM e -> node_rel (mk_node b t e) (mk_node b' t e').
+Lemma mk_node_rel b b' t e e' : BR b b' -> e' =t= dscale FF MM e -> node_rel (mk_node b t e) (mk_node b' t e').
 Proof.
   intros R H. unfold node_rel, mk_node. cbn [pn_t pn_x pn_y pn_ext pn_left pn_right].
-  destruct (point_at_rel lam b b' t (br_x1 _ _ _ _ _ R) (br_y1 _ _ _ _ _ R) (br_x2 _ _ _ _ _ R) (br_y2 _ _ _ _ _ R)) as (P1 & P2).
+  destruct (point_at_rel lam cr sr dx dy b b' t (br_x1 _ _ _ _ _ _ _ _ _ R) (br_y1 _ _ _ _ _ _ _ _ _ R) (br_x2 _ _ _ _ _ _ _ _ _ R) (br_y2 _ _ _ _ _ _ _ _ _ R)) as (P1 & P2).
   split; [reflexivity|]. split; [exact P1|]. split; [exact P2|]. split; [exact H|]. split; symmetry; apply dscale_0.
 Qed.
 
-Lemma ext_at_rel b b' t : bar_rel lam f m b b' -> ext_at b' t =t= dscale FF MM (ext_at b t).
+Lemma ext_at_rel b b' t : BR b b' -> ext_at b' t =t= dscale FF MM (ext_at b t).
 Proof.
-  intros R. unfold ext_at. rewrite (br_c _ _ _ _ _ R), (br_s _ _ _ _ _ R).
-  apply ext_fold_rel; [exact (br_cl _ _ _ _ _ R) | symmetry; apply dscale_0].
+  intros R. unfold ext_at.
+  apply (ext_fold_rel SF); [exact (same_frame _ _ _ _ _ _ _ _ _ R) | exact (br_cl _ _ _ _ _ _ _ _ _ R) | symmetry; apply dscale_0].
 Qed.
 
-Lemma axial_end_load_rel b b' s : bar_rel lam f m b b' -> axial_end_load b' s =t= dscale FF MM (axial_end_load b s).
+Lemma axial_end_load_rel b b' s : BR b b' -> axial_end_load b' s =t= dscale FF MM (axial_end_load b s).
 Proof.
-  intros R. unfold axial_end_load. rewrite (br_c _ _ _ _ _ R), (br_s _ _ _ _ _ R).
-  assert (G : forall cl cl', Forall2 (cl_rel FF MM) cl cl' -> forall acc acc', acc' =t= dscale FF MM acc ->
-     fold_left (fun ac l => let t := cl_local_tor (b_c b) (b_s b) l in
+  intros R. unfold axial_end_load.
+  assert (G : forall cl cl', Forall2 (cl_rel SF FF MM) cl cl' -> forall acc acc', acc' =t= dscale FF MM acc ->
+     fold_left (fun ac l => let t := cl_local_tor (b_c b') (b_s b') l in
                  let hit := if s then is_min (cl_t l) else negb (is_min (cl_t l)) && is_max (cl_t l) in
                  if hit then ((t_fx ac + t_fx t)%num, (t_fy ac + t_fy t)%num, n0) else ac) cl' acc'
      =t= dscale FF MM (fold_left (fun ac l => let t := cl_local_tor (b_c b) (b_s b) l in
                  let hit := if s then is_min (cl_t l) else negb (is_min (cl_t l)) && is_max (cl_t l) in
                  if hit then ((t_fx ac + t_fx t)%num, (t_fy ac + t_fy t)%num, n0) else ac) cl acc)).
   { induction 1 as [|l l' cl cl' Hl _ IH]; intros acc acc' H; [exact H|]. cbn [fold_left]. apply IH. cbv zeta.
-    pose proof (cl_local_tor_rel FF MM (b_c b) (b_s b) l l' Hl) as (C1 & C2 & _).
+    pose proof (cl_local_tor_rel SF FF MM (b_c b) (b_s b) (b_c b') (b_s b') l l' (same_frame _ _ _ _ _ _ _ _ _ R) Hl) as (C1 & C2 & _).
     destruct Hl as (_ & _ & Hp & _). rewrite Hp.
     destruct (if s then is_min (cl_t l) else negb (is_min (cl_t l)) && is_max (cl_t l)); [| exact H].
     destruct H as (H1 & H2 & _).
     unfold tor_eq, dscale, t_fx, t_fy, t_mz in *. cbn [fst snd nadd n0 QOps] in *. rewrite C1, C2, H1, H2. repeat split; ring. }
-  apply G; [exact (br_cl _ _ _ _ _ R) | symmetry; apply dscale_0].
+  apply G; [exact (br_cl _ _ _ _ _ _ _ _ _ R) | symmetry; apply dscale_0].
 Qed.
 
-Lemma is_axial_rel b b' : bar_rel lam f m b b' -> is_axial b' = is_axial b.
+Lemma is_axial_rel b b' : BR b b' -> is_axial b' = is_axial b.
 Proof.
-  intros R. unfold is_axial. rewrite (br_l1 _ _ _ _ _ R), (br_l2 _ _ _ _ _ R).
-  pose proof (br_dl _ _ _ _ _ R) as Hd. pose proof (br_cl _ _ _ _ _ R) as Hc.
+  intros R. unfold is_axial. rewrite (br_l1 _ _ _ _ _ _ _ _ _ R), (br_l2 _ _ _ _ _ _ _ _ _ R).
+  pose proof (br_dl _ _ _ _ _ _ _ _ _ R) as Hd. pose proof (br_cl _ _ _ _ _ _ _ _ _ R) as Hc.
   assert (E : forallb (fun l => cl_nodal l && negb (term_eqb (cl_term l) MZ)) (b_cl b')
               = forallb (fun l => cl_nodal l && negb (term_eqb (cl_term l) MZ)) (b_cl b)).
   { induction Hc as [|l l' cl cl' (Ht & _ & Hp & _) _ IH]; [reflexivity|].
     cbn [forallb]. rewrite IH. unfold cl_nodal. rewrite Ht, Hp. reflexivity. }
   destruct Hd; [| reflexivity]. rewrite E. reflexivity.
 Qed.
-Lemma has_loads_rel b b' : bar_rel lam f m b b' -> has_loads b' = has_loads b.
+Lemma has_loads_rel b b' : BR b b' -> has_loads b' = has_loads b.
 Proof.
-  intros R. unfold has_loads. pose proof (br_dl _ _ _ _ _ R) as Hd. pose proof (br_cl _ _ _ _ _ R) as Hc.
+  intros R. unfold has_loads. pose proof (br_dl _ _ _ _ _ _ _ _ _ R) as Hd. pose proof (br_cl _ _ _ _ _ _ _ _ _ R) as Hc.
   destruct Hc, Hd; reflexivity.
 Qed.
 
-(* THEOREM: the bar in the other unit system is sliced alike and carries the converted loads *)
-Theorem slice_bar_units b b' : bar_rel lam f m b b' -> Forall2 node_rel (slice_bar b) (slice_bar b').
+(* THEOREM: the second description is sliced alike and carries the converted loads *)
+Theorem slice_bar_units b b' : BR b b' -> Forall2 node_rel (slice_bar b) (slice_bar b').
 Proof.
   intros R. unfold slice_bar. rewrite (is_axial_rel b b' R), (has_loads_rel b b' R).
   destruct (is_axial b).
@@ -260,27 +285,41 @@ Proof.
     + constructor; [apply mk_node_rel; [exact R | symmetry; apply dscale_0]
                    | constructor; [apply mk_node_rel; [exact R | symmetry; apply dscale_0] | constructor]].
   - destruct (has_loads b).
-    + rewrite (positions_rel _ _ _ _ _ _ _ _ c_slices_loaded (br_cl _ _ _ _ _ R) (br_dl _ _ _ _ _ R)).
+    + rewrite (positions_rel _ _ _ _ _ _ _ _ _ c_slices_loaded (br_cl _ _ _ _ _ _ _ _ _ R) (br_dl _ _ _ _ _ _ _ _ _ R)).
       unfold apply_dist.
       induction (slice_positions (b_cl b) (b_dl b) c_slices_loaded) as [|t ts _]; [constructor|].
-      cbn [map]. apply apply_dist_from_rel; [exact R | exact (br_dl _ _ _ _ _ R) | apply mk_node_rel; [exact R | apply ext_at_rel; exact R] |].
+      cbn [map]. apply apply_dist_from_rel; [exact R | exact (br_dl _ _ _ _ _ _ _ _ _ R) | apply mk_node_rel; [exact R | apply ext_at_rel; exact R] |].
       induction ts as [|t' ts IH]; cbn [map]; constructor; [apply mk_node_rel; [exact R | apply ext_at_rel; exact R] | exact IH].
     + induction (uniform c_slices_unloaded) as [|t ts IH]; cbn [map]; constructor; [apply mk_node_rel; [exact R | symmetry; apply dscale_0] | exact IH].
 Qed.
 
-(* own weight: one more global FY load over the whole span, of intensity own_weight_gen rho A *)
-Lemma with_own_weight_rel b b' : bar_rel lam f m b b' -> bar_rel lam f m (with_own_weight b) (with_own_weight b').
+(* own weight: one more global FY load over the whole span, of intensity own_weight_gen rho A; gravity does not turn
+   with the bar, so this needs the same frame *)
+Lemma with_own_weight_rel b b' : SF -> BR b b' -> BR (with_own_weight b) (with_own_weight b').
 Proof.
-  intros R. constructor; cbn [with_own_weight b_l1 b_l2 b_c b_s b_x1 b_y1 b_x2 b_y2 b_cl b_dl b_rho b_A]; try apply R.
+  intros Hsf R. constructor; cbn [with_own_weight b_l1 b_l2 b_c b_s b_x1 b_y1 b_x2 b_y2 b_cl b_dl b_rho b_A]; try apply R.
   apply Forall2_app; [apply R|]. constructor; [| constructor].
   unfold dl_rel, own_weight_load. cbn [dl_term dl_local dl_t0 dl_t1 dl_v0 dl_v1 kof].
-  repeat split; try reflexivity; apply R.
+  repeat split; try reflexivity; try apply R. left. exact Hsf.
 Qed.
 
-Theorem preprocess_bar_units w b b' : bar_rel lam f m b b' -> Forall2 node_rel (preprocess_bar w b) (preprocess_bar w b').
-Proof. intros R. unfold preprocess_bar. destruct w; apply slice_bar_units; [apply with_own_weight_rel|]; exact R. Qed.
+Theorem preprocess_bar_units w b b' : (w = true -> SF) -> BR b b' -> Forall2 node_rel (preprocess_bar w b) (preprocess_bar w b').
+Proof.
+  intros Hw R. unfold preprocess_bar. destruct w; apply slice_bar_units; [apply with_own_weight_rel; [apply Hw; reflexivity | exact R] | exact R].
+Qed.
 
 End Units.
+
+Lemma Forall2_weaken {A B} (P Q : A -> B -> Prop) l l' : (forall x y, P x y -> Q x y) -> Forall2 P l l' -> Forall2 Q l l'.
+Proof. intros H. induction 1; constructor; auto. Qed.
+Lemma Forall2_same_length {A B} (P : A -> B -> Prop) l l' : Forall2 P l l' -> length l = length l'.
+Proof. induction 1; cbn; congruence. Qed.
+Lemma Forall2_refl {A} (P : A -> A -> Prop) (l : list A) : (forall x, P x x) -> Forall2 P l l.
+Proof. intros H. induction l; constructor; auto. Qed.
+Lemma dscale_ext f m f' m' t : f == f' -> m == m' -> dscale f m t =t= dscale f' m' t.
+Proof. intros H1 H2. unfold tor_eq, dscale, t_fx, t_fy, t_mz. cbn. rewrite H1, H2. repeat split; reflexivity. Qed.
+Lemma dscale_1 t : dscale (1 * 1) (1 * 1) t =t= t.
+Proof. unfold tor_eq, dscale, t_fx, t_fy, t_mz. cbn. repeat split; ring. Qed.
 
 (* ---- the conversion written out: lengths x lam, forces x phi ---- *)
 Definition units_cl (lam phi : Q) (l : cload Q) : cload Q :=
@@ -295,25 +334,19 @@ Definition units_bar (lam phi : Q) (b : bar Q) : bar Q :=
      b_rho := b_rho b * phi / (lam * lam * lam);
      b_cl := map (units_cl lam phi) (b_cl b); b_dl := map (units_dl lam phi) (b_dl b) |}.
 
-Lemma units_bar_rel lam phi b : ~ lam == 0 -> bar_rel lam (phi / lam) phi b (units_bar lam phi b).
+Lemma sf_id : 1 == 1 /\ 0 == 0.
+Proof. split; reflexivity. Qed.
+
+Lemma units_bar_rel lam phi b : ~ lam == 0 -> bar_rel lam 1 0 0 0 (phi / lam) phi b (units_bar lam phi b).
 Proof.
-  intros Hlam. constructor; cbn [units_bar b_l1 b_l2 b_c b_s b_x1 b_y1 b_x2 b_y2 b_cl b_dl b_rho b_A]; try reflexivity.
+  intros Hlam. constructor; cbn [units_bar b_l1 b_l2 b_c b_s b_x1 b_y1 b_x2 b_y2 b_cl b_dl b_rho b_A]; try reflexivity; try ring.
   - induction (b_cl b) as [|l cl IH]; cbn [map]; constructor; [| exact IH].
-    unfold cl_rel, units_cl. cbn [cl_term cl_local cl_t cl_v]. repeat split.
+    unfold cl_rel, units_cl. cbn [cl_term cl_local cl_t cl_v]. repeat split; try (left; exact sf_id).
     destruct (cl_term l); cbn [kof]; field; exact Hlam.
   - induction (b_dl b) as [|l dl IH]; cbn [map]; constructor; [| exact IH].
-    unfold dl_rel, units_dl. cbn [dl_term dl_local dl_t0 dl_t1 dl_v0 dl_v1]. repeat split; reflexivity.
+    unfold dl_rel, units_dl. cbn [dl_term dl_local dl_t0 dl_t1 dl_v0 dl_v1]. repeat split; try reflexivity; left; exact sf_id.
   - unfold own_weight_gen. cbn [nmul nopp QOps]. field. exact Hlam.
 Qed.
-
-Lemma Forall2_weaken {A B} (P Q : A -> B -> Prop) l l' : (forall x y, P x y -> Q x y) -> Forall2 P l l' -> Forall2 Q l l'.
-Proof. intros H. induction 1; constructor; auto. Qed.
-
-Lemma Forall2_same_length {A B} (P : A -> B -> Prop) l l' : Forall2 P l l' -> length l = length l'.
-Proof. induction 1; cbn; congruence. Qed.
-
-Lemma dscale_ext f m f' m' t : f == f' -> m == m' -> dscale f m t =t= dscale f' m' t.
-Proof. intros H1 H2. unfold tor_eq, dscale, t_fx, t_fy, t_mz. cbn. rewrite H1, H2. repeat split; reflexivity. Qed.
 
 (* THEOREM (C09, whole bar): in the other unit system the bar is cut at the same positions, its nodes are at
    lam times the coordinates, and every nodal load is the original one converted: forces x phi, moments x phi lam *)
@@ -325,16 +358,80 @@ Theorem bar_in_other_units (lam phi : Q) (w : bool) (b : bar Q) : ~ lam == 0 ->
 Proof.
   intros Hlam.
   assert (Hm : phi == phi / lam * lam) by (field; exact Hlam).
-  pose proof (preprocess_bar_units lam (phi / lam) phi Hlam Hm w b (units_bar lam phi b) (units_bar_rel lam phi b Hlam)) as H.
+  assert (Hu : 1 * 1 + 0 * 0 == 1) by ring.
+  pose proof (preprocess_bar_units lam 1 0 0 0 (phi / lam) phi Hlam Hm Hu w b (units_bar lam phi b) (fun _ => sf_id) (units_bar_rel lam phi b Hlam)) as H.
   eapply Forall2_weaken; [| exact H].
   intros n n' (H1 & H2 & H3 & H4 & H5 & H6).
   assert (E : forall t, dscale (phi / lam * lam) (phi * lam) t =t= dscale phi (phi * lam) t)
     by (intro t; apply dscale_ext; [symmetry; exact Hm | reflexivity]).
-  split; [exact H1|]. split; [exact H2|]. split; [exact H3|].
+  split; [exact H1|]. split; [rewrite H2; ring|]. split; [rewrite H3; ring|].
   split; [etransitivity; [exact H4 | apply E]|]. split; [etransitivity; [exact H5 | apply E] | etransitivity; [exact H6 | apply E]].
 Qed.
 
-(* the same number of nodes, in particular *)
 Corollary same_number_of_nodes lam phi w b : ~ lam == 0 ->
   length (preprocess_bar w (units_bar lam phi b)) = length (preprocess_bar w b).
 Proof. intros H. symmetry. eapply Forall2_same_length. apply (bar_in_other_units lam phi w b H). Qed.
+
+(* ---- the same bar somewhere else (C07): every coordinate shifted by (dx, dy), nothing else touched ---- *)
+Definition moved_bar (dx dy : Q) (b : bar Q) : bar Q :=
+  {| b_n1 := b_n1 b; b_n2 := b_n2 b; b_l1 := b_l1 b; b_l2 := b_l2 b;
+     b_x1 := b_x1 b + dx; b_y1 := b_y1 b + dy; b_x2 := b_x2 b + dx; b_y2 := b_y2 b + dy; b_L := b_L b; b_c := b_c b; b_s := b_s b;
+     b_E := b_E b; b_A := b_A b; b_I := b_I b; b_S := b_S b; b_rho := b_rho b; b_cl := b_cl b; b_dl := b_dl b |}.
+
+Lemma moved_bar_rel dx dy b : bar_rel 1 1 0 dx dy 1 1 b (moved_bar dx dy b).
+Proof.
+  constructor; cbn [moved_bar b_l1 b_l2 b_c b_s b_x1 b_y1 b_x2 b_y2 b_cl b_dl b_rho b_A]; try reflexivity; try ring.
+  - apply Forall2_refl. intros l. unfold cl_rel. repeat split; try (left; exact sf_id). destruct (cl_term l); cbn [kof]; ring.
+  - apply Forall2_refl. intros l. unfold dl_rel. repeat split; try (left; exact sf_id); destruct (dl_term l); cbn [kof]; ring.
+Qed.
+
+(* THEOREM (C07, whole bar): moved by any translation the bar is cut at the same positions, its nodes move along,
+   and every nodal load is what it was; own weight included *)
+Theorem moved_bar_is_sliced_alike (dx dy : Q) (w : bool) (b : bar Q) :
+  Forall2 (fun n n' => pn_t n' = pn_t n /\ pn_x n' == pn_x n + dx /\ pn_y n' == pn_y n + dy /\
+                       pn_ext n' =t= pn_ext n /\ pn_left n' =t= pn_left n /\ pn_right n' =t= pn_right n)
+          (preprocess_bar w b) (preprocess_bar w (moved_bar dx dy b)).
+Proof.
+  assert (H1 : ~ 1 == 0) by discriminate. assert (Hm : 1 == 1 * 1) by ring. assert (Hu : 1 * 1 + 0 * 0 == 1) by ring.
+  pose proof (preprocess_bar_units 1 1 0 dx dy 1 1 H1 Hm Hu w b (moved_bar dx dy b) (fun _ => sf_id) (moved_bar_rel dx dy b)) as H.
+  eapply Forall2_weaken; [| exact H].
+  intros n n' (A1 & A2 & A3 & A4 & A5 & A6).
+  split; [exact A1|]. split; [rewrite A2; ring|]. split; [rewrite A3; ring|].
+  split; [etransitivity; [exact A4 | apply dscale_1]|]. split; [etransitivity; [exact A5 | apply dscale_1] | etransitivity; [exact A6 | apply dscale_1]].
+Qed.
+
+(* ---- the same bar turned about the origin by the angle with cosine cr and sine sr (C07): its loads are given in its
+   own axes and turn with it ---- *)
+Definition turned_bar (cr sr : Q) (b : bar Q) : bar Q :=
+  {| b_n1 := b_n1 b; b_n2 := b_n2 b; b_l1 := b_l1 b; b_l2 := b_l2 b;
+     b_x1 := cr * b_x1 b - sr * b_y1 b; b_y1 := sr * b_x1 b + cr * b_y1 b; b_x2 := cr * b_x2 b - sr * b_y2 b; b_y2 := sr * b_x2 b + cr * b_y2 b;
+     b_L := b_L b; b_c := cr * b_c b - sr * b_s b; b_s := sr * b_c b + cr * b_s b;
+     b_E := b_E b; b_A := b_A b; b_I := b_I b; b_S := b_S b; b_rho := b_rho b; b_cl := b_cl b; b_dl := b_dl b |}.
+Definition own_axes_only (b : bar Q) : bool := forallb (@cl_local Q) (b_cl b) && forallb (@dl_local Q) (b_dl b).
+
+Lemma turned_bar_rel cr sr b : own_axes_only b = true -> bar_rel 1 cr sr 0 0 1 1 b (turned_bar cr sr b).
+Proof.
+  intros Hl. apply andb_prop in Hl. destruct Hl as (Hc & Hd).
+  constructor; cbn [turned_bar b_l1 b_l2 b_c b_s b_x1 b_y1 b_x2 b_y2 b_cl b_dl b_rho b_A]; try reflexivity; try ring.
+  - induction (b_cl b) as [|l cl IH]; [constructor|]. cbn [forallb] in Hc. apply andb_prop in Hc. destruct Hc as (H1 & H2).
+    constructor; [| apply IH; exact H2]. unfold cl_rel. repeat split; try (right; exact H1). destruct (cl_term l); cbn [kof]; ring.
+  - induction (b_dl b) as [|l dl IH]; [constructor|]. cbn [forallb] in Hd. apply andb_prop in Hd. destruct Hd as (H1 & H2).
+    constructor; [| apply IH; exact H2]. unfold dl_rel. repeat split; try (right; exact H1); destruct (dl_term l); cbn [kof]; ring.
+Qed.
+
+(* THEOREM (C07, whole bar): turned by any angle, a bar whose loads are given in its own axes is cut at the same positions,
+   its nodes turn along, and every nodal load (in the bar's axes) is what it was *)
+Theorem turned_bar_is_sliced_alike (cr sr : Q) (b : bar Q) : cr * cr + sr * sr == 1 -> own_axes_only b = true ->
+  Forall2 (fun n n' => pn_t n' = pn_t n /\ pn_x n' == cr * pn_x n - sr * pn_y n /\ pn_y n' == sr * pn_x n + cr * pn_y n /\
+                       pn_ext n' =t= pn_ext n /\ pn_left n' =t= pn_left n /\ pn_right n' =t= pn_right n)
+          (preprocess_bar false b) (preprocess_bar false (turned_bar cr sr b)).
+Proof.
+  intros Hu Hl.
+  assert (H1 : ~ 1 == 0) by discriminate. assert (Hm : 1 == 1 * 1) by ring.
+  assert (Hw : false = true -> cr == 1 /\ sr == 0) by discriminate.
+  pose proof (preprocess_bar_units 1 cr sr 0 0 1 1 H1 Hm Hu false b (turned_bar cr sr b) Hw (turned_bar_rel cr sr b Hl)) as H.
+  eapply Forall2_weaken; [| exact H].
+  intros n n' (A1 & A2 & A3 & A4 & A5 & A6).
+  split; [exact A1|]. split; [rewrite A2; ring|]. split; [rewrite A3; ring|].
+  split; [etransitivity; [exact A4 | apply dscale_1]|]. split; [etransitivity; [exact A5 | apply dscale_1] | etransitivity; [exact A6 | apply dscale_1]].
+Qed.
